@@ -454,6 +454,36 @@ def run(prog, rep):
         need_ = {2: 16, 10: 46}.get(fam_)
         if need_ is not None and sz_ is not None and sz_ < need_:
             _bad.append((c, "the %s text buffer size handed to inet_ntop is %d, the longest text with its terminator needs %d" % ("IPv4" if fam_ == 2 else "IPv6", sz_, need_)))
+    # text -> address: the strings rejected are the ones the platform rejects.  A NULL return of p_socket_address_new that is reached
+    # with a non-NULL string and without a failed allocation comes after one of the platform's parsers has been asked (a length or
+    # character pre-filter in front of them turns away strings the platform takes, e.g. a full link-local address with a zone)
+    _an = prog.unit("psocketaddress.c").fn("p_socket_address_new")
+    _PARSERS = ("inet_pton", "inet_aton", "inet_addr", "getaddrinfo", "WSAStringToAddressA")
+    _ap = _an.param_names()[0]
+    _early = []
+    _nfail = [0]
+
+    def _as(st, b, i, stmt):
+        facts, parsed = st
+        if any(c.get("callee") in _PARSERS for c in calls(stmt)):
+            parsed = True
+        if stmt["k"] == "ret" and stmt.get("e") is not None and guards.eval_const(stmt["e"], facts) == 0:
+            _nfail[0] += 1
+            oom = any(fk.startswith("p_malloc") and fop == "==" and fv == 0 for (fk, fop, fv) in facts)
+            if not parsed and not oom and guards.lookup(facts, _ap) != 0 and guards.known_nonzero({"k": "ref", "name": _ap, "decl": "param"}, facts):
+                _early.append(line(stmt))
+        return [(guards.transfer(facts, stmt), parsed)]
+
+    def _ae(st, b, to, on):
+        f2 = guards.edge_assume(st[0], b, on)
+        return None if f2 is None else (f2, st[1])
+    Flow(_an, [(guards.EMPTY, False)], _as, _ae).run()
+    if _nfail[0] < 2:
+        raise AnalysisBroken("p_socket_address_new: fewer than two failure returns found (%d)" % _nfail[0])
+    rep.ob("C17.4", _an, "text:platform-decides", not _early,
+           "each of the %d failure returns follows a NULL string, a failed allocation or a platform parser" % _nfail[0] if not _early else
+           "line %d: a non-NULL string is turned away before inet_pton / getaddrinfo were asked: strings the platform accepts (for instance a fully written scoped "
+           "IPv6 address, which is longer than INET6_ADDRSTRLEN) are rejected" % _early[0], _early[0] if _early else _an.loc[0])
     rep.ob("C17.4", _ga, "ntop:size", bool(_nt) and not _bad, "inet_ntop is given room for the longest text of each family" if (_nt and not _bad) else
            ("line %d: %s: addresses whose text is that long come back as whatever the stack buffer held" % (line(_bad[0][0]), _bad[0][1]) if _bad else "no inet_ntop call found"),
            _bad[0][0] if _bad else _ga.loc[0])
